@@ -2,7 +2,6 @@ package identity
 
 import (
 	"fmt"
-	"math"
 	"math/big"
 	"sort"
 
@@ -124,7 +123,24 @@ func (vs *ValidatorStore) ExecuteAllegationTracker(ctx *ValidatorContext, active
 		return err
 	}
 
-	requiredVotesCount := int(math.Ceil(float64(activeCount) * float64(options.ValidatorVotePercentage) / float64(options.ValidatorVoteDecimals)))
+	if options.ValidatorVoteDecimals <= 0 || options.AllegationDecimals <= 0 {
+		return fmt.Errorf("evidence options: vote and allegation decimals must be positive")
+	}
+	// required = ceil(active * votePercentage / voteDecimals). Shares are compared as exact
+	// fractions below: float64 quotients decide exact-equality boundaries by rounding
+	// (1-0.9 < 0.1 closed a request INNOCENT with 1 NO vote of 10 required at 90%).
+	requiredVotesCount, rem := new(big.Int).QuoRem(
+		new(big.Int).Mul(big.NewInt(activeCount), big.NewInt(options.ValidatorVotePercentage)),
+		big.NewInt(options.ValidatorVoteDecimals), new(big.Int))
+	if rem.Sign() > 0 {
+		requiredVotesCount.Add(requiredVotesCount, big.NewInt(1))
+	}
+	// shareAbove(count, num): count/required > num/AllegationDecimals
+	shareAbove := func(count int, num int64) bool {
+		l := new(big.Int).Mul(big.NewInt(int64(count)), big.NewInt(options.AllegationDecimals))
+		r := new(big.Int).Mul(big.NewInt(num), requiredVotesCount)
+		return l.Cmp(r) > 0
+	}
 
 	popt, err := ctx.Govern.GetProposalOptions()
 	if err != nil {
@@ -169,13 +185,10 @@ func (vs *ValidatorStore) ExecuteAllegationTracker(ctx *ValidatorContext, active
 			}
 		}
 
-		yesP := float64(yesCount) / float64(requiredVotesCount)
-		noP := float64(noCount) / float64(requiredVotesCount)
-		percentage := float64(options.AllegationPercentage) / float64(options.AllegationDecimals)
 		arToUpdate := false
 
 		logger.Detailf("Request ID: %s, yes votes count: %d, no votes count: %d, total count: %d \n", requestID, yesCount, noCount, requiredVotesCount)
-		if yesP > percentage {
+		if shareAbove(yesCount, options.AllegationPercentage) {
 			decisionMade = true
 			ar.Status = evidence.GUILTY
 			sv, err := ctx.EvidenceStore.CreateSuspiciousValidator(
@@ -262,7 +275,7 @@ func (vs *ValidatorStore) ExecuteAllegationTracker(ctx *ValidatorContext, active
 				logger.Errorf("Failed to update postponed: %s\n", err)
 				continue
 			}
-		} else if noP > 1-percentage {
+		} else if shareAbove(noCount, options.AllegationDecimals-options.AllegationPercentage) {
 			decisionMade = true
 			//processedValidators[ar.MaliciousAddress.Humanize()] = true
 			ar.Status = evidence.INNOCENT
